@@ -41,3 +41,36 @@ Print Assumptions C09_services.
 
 Example C09_ex : i_decorators (merge_all [empty_input; empty_input]) = [].
 Proof. reflexivity. Qed.
+
+(** ---- split invariance (Proofs/SplitProofs.v).  A [mask] decides for EVERY piece of a configuration which of two files gets it:
+    each scalar of meta and each scalar attribute of each service (file 1, file 2 or both), each key of each mapping (imports,
+    functions, parameters, fields), whole argument lists, and a cut point for calls, tags and decorators (earlier part in the
+    earlier file).  [parts ms i] applies masks successively, [tparts p i] along an arbitrary binary tree: any number of files. ---- *)
+From GV Require Import Proofs.SplitProofs.
+
+Theorem C09_split_invariant_two_files : forall (m : mask) (i : input), wf_input i -> input_eq (merge (part1 m i) (part2 m i)) i.
+Proof. exact split2_invariant. Qed.
+Print Assumptions C09_split_invariant_two_files.
+
+Theorem C09_split_invariant_n_files : forall (ms : list mask) (i : input), wf_input i -> input_eq (merge_all (parts ms i)) i.
+Proof. exact splitN_invariant. Qed.
+Print Assumptions C09_split_invariant_n_files.
+
+Theorem C09_split_invariant_tree : forall (p : plan) (i : input), wf_input i -> input_eq (merge_all (tparts p i)) i.
+Proof. exact split_tree_invariant. Qed.
+Print Assumptions C09_split_invariant_tree.
+
+(** an empty file anywhere changes nothing (literally) *)
+Theorem C09_empty_file_anywhere : forall l1 l2 : list input, merge_all (l1 ++ empty_input :: l2) = merge_all (l1 ++ l2).
+Proof. exact merge_all_empty_anywhere_eq. Qed.
+Print Assumptions C09_empty_file_anywhere.
+
+(** file order matters only where files overlap: files touching disjoint pieces commute *)
+Theorem C09_disjoint_files_commute : forall a b : input, wf_input a -> wf_input b -> disjoint a b -> input_eq (merge a b) (merge b a).
+Proof. exact merge_comm_disjoint. Qed.
+Print Assumptions C09_disjoint_files_commute.
+
+(** the mask notion is tight: splitting arguments element-wise, or giving the later calls to the earlier file, changes the result *)
+Example C09_ex_args_elementwise_breaks := Examples.args_elementwise_breaks.
+Example C09_ex_calls_reversed_breaks := Examples.calls_reversed_breaks.
+Example C09_ex_split_literal : merge (part1 Examples.cfg_mask Examples.cfg) (part2 Examples.cfg_mask Examples.cfg) = Examples.cfg := Examples.split2_cfg_literal.
